@@ -24,12 +24,19 @@ func rchanPtr[T any](ch <-chan T) unsafe.Pointer { return *(*unsafe.Pointer)(uns
 func schanPtr[T any](ch chan<- T) unsafe.Pointer { return *(*unsafe.Pointer)(unsafe.Pointer(&ch)) }
 
 // Go starts fn as a new thread (a real goroutine in native mode).
-func Go(name string, fn func()) {
+func Go(name string, fn func()) { GoPrio(name, 0, fn) }
+
+// GoPrio starts fn as a thread with a scheduling priority: when the running thread blocks or ends, the default
+// scheduler continues with the enabled thread of the lowest (prio, id). A background actor started with a high
+// value therefore runs, by default, only when nothing else can - and "it runs at THIS point instead" costs a single
+// deviation wherever the point is. Every enabled thread stays an alternative at every scheduling point, so the set of
+// schedules within a bound changes, the set of all schedules does not.
+func GoPrio(name string, prio int, fn func()) {
 	if !active.Load() {
 		go fn()
 		return
 	}
-	g := call(request{kind: opSpawn, label: name})
+	g := call(request{kind: opSpawn, label: name, n: prio})
 	if g.thr == nil {
 		return // dying
 	}
@@ -238,6 +245,7 @@ func Now() time.Duration {
 	if !active.Load() {
 		return 0
 	}
+	threadNote(opNow, uint64(S.now))
 	return S.now
 }
 
@@ -247,6 +255,7 @@ func NextID() int {
 		return int(nativeID.Add(1))
 	}
 	S.uuid++
+	threadNote(opNextID, uint64(S.uuid))
 	return S.uuid
 }
 
@@ -261,6 +270,13 @@ func RWRUnlock(p unsafe.Pointer)    { call(request{kind: opRUnlock, obj: p}) }
 func WgAdd(p unsafe.Pointer, n int) { call(request{kind: opWgAdd, obj: p, n: n}) }
 func WgWait(p unsafe.Pointer)       { call(request{kind: opWgWait, obj: p}) }
 func AtomicPoint()                  { call(request{kind: opAtomicLoad}) }
+
+// AtomicLoad is the scheduling point before an atomic load of the word at p; AtomicRMW likewise for a
+// read-modify-write; AtomicStore records a store (not a scheduling point). The real atomic operation is performed
+// by the caller; the actor only needs the order of the operations for the happens-before state keys.
+func AtomicLoad(p unsafe.Pointer)  { call(request{kind: opAtomicLoad, obj: p}) }
+func AtomicRMW(p unsafe.Pointer)   { call(request{kind: opAtomicLoad, obj: p, n: 1}) }
+func AtomicStore(p unsafe.Pointer) { call(request{kind: opAtomicStore, obj: p}) }
 
 // --- ordered map iteration ----------------------------------------------------------------------------------
 
